@@ -51,7 +51,7 @@ def sessions(suite, spec, scratch, tag):
     json.dump(spec, open(sp, "w"))
     outdir = os.path.join(scratch, f"ses_{tag}")
     p = subprocess.run([cf.PY, os.path.join(ROOT, "harness", "sessions.py"), cfgp, sp, outdir, str(cf.NCPU)],
-                       stdout=subprocess.PIPE, stderr=subprocess.PIPE, text=True)
+                       stdout=subprocess.PIPE, stderr=subprocess.PIPE, text=True, env=cf.harness_env())
     if p.returncode != 0:
         raise MachineryError("session harness failed:\n" + p.stderr[-3000:])
     info = json.loads(p.stdout.strip().splitlines()[-1])
@@ -140,7 +140,7 @@ def run(prop, tier, seed, replay_path=None):
         return 2
     n_viol = 0
     seen = set()
-    rdir = os.path.join(ROOT, "replays", "C02")
+    rdir = os.path.join(cf.out_dir("replays"), "C02")
     for v in violations:
         sig = json.dumps(v["calls"][:v["step"]])
         if sig in seen:
